@@ -478,8 +478,6 @@ def in_fragment(dt, s):
         t = s.strip(_WS).replace("_", "")
         if t[:1] in ("+", "-"):
             t = t[1:]
-        if t[:1].lower() in ("i", "n", "s"):
-            return False
         m = re.search("[eE]", t)
         return len(t[m.end():] if m else "") <= 3
     if dt == "date":
